@@ -198,6 +198,9 @@ class BundleContainer(object):
                 blk_num = Bundle.BLOCK_NUM_PAYLOAD
             else:
                 blk_num = self.get_block_num()
+            # scapy shares the overloaded_fields dict between all instances
+            # layered the same way, so never modify it in place
+            blk.overloaded_fields = dict(blk.overloaded_fields)
             blk.overloaded_fields['block_num'] = blk_num
         return blk_num
 
